@@ -80,6 +80,16 @@ Section Wrapper.
     let f := to_projected l crs in
     (f, match snd f with Some _ => ([], None) | None => to_geographic (fst f) crs end).
 
+  (* a history of calls: each call is a function of its own arguments only (the two functions keep no state between calls) *)
+  Inductive call := CallFwd (l : list point) (crs : Z) | CallBack (l : list ppoint) (crs : Z).
+  Inductive call_result := ResFwd (r : list ppoint * option ekind) | ResBack (r : list point * option ekind).
+  Definition run_call (c : call) : call_result :=
+    match c with
+    | CallFwd l crs => ResFwd (to_projected l crs)
+    | CallBack l crs => ResBack (to_geographic l crs)
+    end.
+  Definition run_history (h : list call) : list call_result := map run_call h.
+
   (* HISTORICAL: the control flow before the two fix commits (no early check of the code; NewPoint's verdict ignored).
      Kept only for the regression Examples of section 4; nothing else refers to it. *)
   Definition back_point_old (crs : Z) (q : ppoint) : point + ekind :=
@@ -450,6 +460,23 @@ Section WrapperThm.
     unfold round_trip. cbn zeta. cbn [fst snd]. intros H1. rewrite H1. rewrite to_geographic_err_iff.
     rewrite (to_projected_known _ _ H1). split; [intros [H|H]; [discriminate | exact H] | auto].
   Qed.
+  (* ---- call histories: whatever was called before (valid codes, the same unknown code, the other direction), a call with an
+     unknown code returns the empty list and a conversion error ---- *)
+  Definition call_crs (c : call) : Z := match c with CallFwd _ crs | CallBack _ crs => crs end.
+  Definition conversion_error_result (r : call_result) : Prop :=
+    match r with ResFwd r => r = ([], Some EValueConvert) | ResBack r => r = ([], Some EValueConvert) end.
+  Theorem unknown_epsg_in_any_history before c after :
+    known (call_crs c) = false ->
+    exists rb ra r, run_history known tr (before ++ c :: after) = rb ++ r :: ra /\ length rb = length before /\ conversion_error_result r.
+  Proof.
+    intros K. exists (run_history known tr before), (run_history known tr after), (run_call known tr c).
+    unfold run_history. rewrite map_app. cbn [map]. split; [reflexivity|]. split; [apply map_length|].
+    destruct (unknown_epsg _ K) as [F B]. destruct c as [l crs|l crs]; cbn [run_call conversion_error_result call_crs] in *; auto.
+  Qed.
+  (* and every call of a history returns what it returns on its own *)
+  Theorem history_is_stateless h i c :
+    nth_error h i = Some c -> nth_error (run_history known tr h) i = Some (run_call known tr c).
+  Proof. intros H. unfold run_history. now apply map_nth_error. Qed.
 End WrapperThm.
 
 (* ------------------------------------------------------------------------------------------------------------------ *)
